@@ -84,14 +84,19 @@ Definition leaf_text (parts : list part) : str :=
   | [] => s
   end.
 
-Notation env := (list (str * value)) (only parsing).
-Fixpoint env_lookup (k : str) (e : env) : option value :=
+(* leaf text -> Some v (Django evaluates it to v) | None (Django raises on it: unknown filter, bad literal, ...) *)
+Notation env := (list (str * option value)) (only parsing).
+Fixpoint env_lookup (k : str) (e : env) : option (option value) :=
   match e with
   | [] => None
   | (k', v) :: r => if str_eqb k k' then Some v else env_lookup k r
   end.
 Definition eval_leaf (e : env) (parts : list part) : rres value :=
-  match env_lookup (leaf_text parts) e with Some v => ROk v | None => RErr ELeaf end.
+  match env_lookup (leaf_text parts) e with
+  | Some (Some v) => ROk v
+  | Some None => RErr ELeaf          (* whatever Django raises for this leaf *)
+  | None => RErr EOther              (* a leaf text the implementation never produced *)
+  end.
 
 (* ---------- TagValueStruct.resolve ---------- *)
 Definition node_spread (n : node) : option spread :=
@@ -170,7 +175,8 @@ Fixpoint extract_flags (allowed : list str) (attrs : list attr) (found : list st
     match ser_omit_key a with
     | None => RErr EOther
     | Some v =>
-      if negb (str_in v allowed) then
+      (* `if attr.key is not None or value not in allowed_flags` (fix 2de8cc8) *)
+      if is_some (a_key a) || negb (str_in v allowed) then
         rbind (extract_flags allowed r found) (fun '(rem, fl) => ROk (a :: rem, fl))
       else if is_some (node_spread (a_value a)) then RErr ETemplateSyntax
       else if str_in v found then RErr ETemplateSyntax
@@ -379,6 +385,7 @@ Definition check_run (keywords : list str) (c : rcase) : bool :=
   | ROk (args, kw, flags, closed), RGot args' kw' flags' closed' =>
     value_sim 20 (VList args) (VList args') && value_sim 20 (VDict kw) (VDict kw')
     && flags_sim flags flags' && Bool.eqb closed closed'
+  | RErr ELeaf, RFail _ => true      (* the exception class of a failing leaf is Django's *)
   | RErr e, RFail e' => rerr_eqb e e'
   | _, _ => false
   end.
